@@ -246,7 +246,11 @@ func newWorld(rt *rapid.T, cfg *config) *world {
 		v6 = append(v6, rcmgr.ConnLimitPerSubnet{PrefixLength: s.bits, ConnCount: s.cap})
 	}
 	np4 := []rcmgr.NetworkPrefixLimit{{Network: netip.MustParsePrefix("10.0.0.0/8"), ConnCount: cfg.np4Cap("10.0.0.0/8")}}
-	rm, err := rcmgr.NewResourceManager(l,
+	var use rcmgr.Limiter = l
+	if cfg.stock {
+		use = stockLimiter(cfg)
+	}
+	rm, err := rcmgr.NewResourceManager(use,
 		rcmgr.WithMetricsDisabled(),
 		rcmgr.WithConnRateLimiters(&rate.Limiter{}),
 		rcmgr.WithAllowlistedMultiaddrs(allowlistAddrs),
@@ -1001,10 +1005,14 @@ func (w *world) closeAll() {
 
 func runHistory(t *testing.T, rt *rapid.T, name string) {
 	cfg := drawConfig(rt)
+	cfg.stock = rapid.IntRange(0, 2).Draw(rt, "stockLimiter") == 0
 	var w *world
 	hx.Bubble(t, rt, func() {
 		w = newWorld(rt, cfg)
 		w.name = name
+		if cfg.stock {
+			w.label("limiter:the-library's-fixed-limiter")
+		}
 		defer w.rm.Close()
 		rt.Repeat(map[string]func(*rapid.T){
 			"openConn":    w.openConn,
